@@ -1,5 +1,6 @@
 //! qh: correspondence / oracle harness driving the real qmc crate.
 mod c08;
+mod c10;
 mod c16;
 mod c17;
 mod coqfmt;
@@ -32,7 +33,7 @@ pub fn write_shards(
         let path = format!("{}/{}.v", out, name);
         let mut f = std::io::BufWriter::new(std::fs::File::create(&path).unwrap());
         writeln!(f, "From Coq Require Import List QArith ZArith NArith Bool.").unwrap();
-        writeln!(f, "From QmcV Require Import Model.Prog Model.Sse Model.Ham Check.Common Check.Table Check.{}.", module).unwrap();
+        writeln!(f, "From QmcV Require Import Model.Prog Model.Sse Model.Ham Model.Diagonal Model.Tempering Check.Common Check.Table Check.{}.", module).unwrap();
         writeln!(f, "Import ListNotations.").unwrap();
         writeln!(f, "Definition base : N := {}%N.", k * per_shard.max(1)).unwrap();
         writeln!(f, "Definition cases : list {}.case := [", module).unwrap();
@@ -87,6 +88,7 @@ fn main() {
         "c08debug" => c08::debug(&args),
         "steps" => steps::run(&args),
         "c17" => c17::run(&args),
+        "c10" => c10::run(&args),
         other => {
             eprintln!("unknown command {}", other);
             std::process::exit(2);
